@@ -270,6 +270,10 @@ def run(ctx, rec):
         return
     from . import c11
 
+    if ctx.shard == 0:
+        runner.direct_run(ctx, rec, "all-neighbours-of-fixed-programs", c11.fixed_neighbours(), c11.judge_neighbours)
+        if rec.violations:
+            return
     runner.hyp_run(ctx, rec, "neighbour-programs-through-recompile", c11.neighbour_cases(), c11.judge_neighbours, ctx.n(100, 600))
     if rec.violations:
         return
